@@ -13,7 +13,8 @@ import XzVerif.Model.Chunk
   * an uncompressed chunk is copied into the ring in pieces of `Available()` bytes (`io.CopyN`);
   * `Read` moves on to the next chunk when the current chunk reader reports `io.EOF`; every error (and the final
     `io.EOF` after the end-of-stream chunk) is stored and returned by all later calls.
-  The source delivers the whole input.  Core-only.
+  The source delivers the whole input and then io.EOF or — `srcErr` — an error of its own, which `io.ReadFull`,
+  `io.CopyN`, `io.LimitReader` and the byte reader hand on unchanged (C09).  Core-only.
 -/
 namespace LazyDec2
 open Lzma Rc Ring LazyDec
@@ -36,20 +37,24 @@ structure R2 where
   uEof : Bool := false
   uErr : Option RStat := none
   err : Option RStat := none       -- Reader2.err
+  srcErr : Bool := false           -- the source fails (error other than io.EOF) where `inp` ends
 
 def hdrLen (ctype : Nat) : Nat := (Gen.headerLen.getD ctype none).getD 0
+
+/-- what running out of source bytes means -/
+def R2.endE (r : R2) : RStat := if r.srcErr then .err .src else .err .unexpectedEOF
 
 /-- `startChunk`; `.ok` = nil -/
 def startChunk (r : R2) : R2 × RStat :=
   let r := { r with cur := .none }
   let inp := r.inp
-  if r.pos ≥ inp.size then (r, .err .unexpectedEOF) else
+  if r.pos ≥ inp.size then (r, r.endE) else
   let c := Lzma2.get inp r.pos
   match (Gen.headerChunkType.getD c none) with
   | none => ({ r with pos := r.pos + 1 }, .err (.other "unsupported chunk header byte"))
   | some ctype =>
     let hl := hdrLen ctype
-    if r.pos + hl > inp.size then ({ r with pos := inp.size }, .err .unexpectedEOF) else
+    if r.pos + hl > inp.size then ({ r with pos := inp.size }, r.endE) else
     let body := r.pos + hl
     let hprops : Option (Option Props) :=
       if ctype = Gen.lzma_cLRN ∨ ctype = Gen.lzma_cLRND then
@@ -82,11 +87,12 @@ def startChunk (r : R2) : R2 × RStat :=
         match Dec.init seg with
         | none =>
           -- `newRangeDecoder` failed (the error is stored by the caller: nothing is read afterwards)
-          (r, if n < 5 then .err .unexpectedEOF else .err (.other "range decoder init"))
+          (r, .err (initErr seg (r.srcErr && decide (n < csize))))
         | some rd =>
           let l : LSt :=
             { r.l with p := p, s := if fresh then {} else r.l.s, tbl := if fresh then initTable p.lc p.lp else r.l.tbl,
-                       rd := rd, start := r.l.dict.head, size := some usize, eos := false }
+                       rd := rd, start := r.l.dict.head, size := some usize, eos := false,
+                       srcEnd := r.srcErr && decide (n < csize) }
           ({ r with l := l, hasDec := true, segEnd := body + n, cur := .lz }, .ok)
 
 /-- `uncompressedReader.fill` -/
@@ -97,7 +103,9 @@ def ufill (r : R2) : R2 × RStat :=
       let k := min want (min r.uN (r.inp.size - r.pos))
       let (d', _, _) := r.l.dict.write (r.inp.extract r.pos (r.pos + k))
       let r' := { r with l := { r.l with dict := d' }, pos := r.pos + k, uN := r.uN - k }
-      if k = want then (r', some RStat.ok, k) else ({ r' with uEof := true }, none, k)
+      if k = want then (r', some RStat.ok, k)
+      else if r.srcErr ∧ r.inp.size - r.pos < min want r.uN then (r', some (RStat.err .src), k)   -- io.CopyN hands on the source's error
+      else ({ r' with uEof := true }, none, k)
     else (r, none, 0)
   match r1 with
   | (r', some st, _) => (r', st)
@@ -156,15 +164,19 @@ def read (r : R2) (len : Nat) : R2 × ByteArray × RStat :=
   | none => readLoop len (2 * len + r.inp.size + 4) r ByteArray.empty
 
 /-- `Reader2Config{DictCap: cfgCap}.NewReader2` on the whole input -/
-def newReader2At (cfgCap : Nat) (inp : ByteArray) (pos : Nat) : R2 :=
+def newReader2AtE (srcErr : Bool) (cfgCap : Nat) (inp : ByteArray) (pos : Nat) : R2 :=
   let cap := if cfgCap = 0 then 8 * 1024 * 1024 else cfgCap
   let l : LSt := { p := ⟨0, 0, 0⟩, tbl := #[], rd := { range := 0, code := 0, inp := [] }, dict := DDict.new cap, size := none }
-  let r : R2 := { inp := inp, pos := pos, l := l }
+  let r : R2 := { inp := inp, pos := pos, l := l, srcErr := srcErr }
   match startChunk r with
   | (r', .ok) => r'
   | (r', st) => { r' with err := some st }
 
+def newReader2At (cfgCap : Nat) (inp : ByteArray) (pos : Nat) : R2 := newReader2AtE false cfgCap inp pos
+
 def newReader2 (cfgCap : Nat) (inp : ByteArray) : R2 := newReader2At cfgCap inp 0
+
+def newReader2E (srcErr : Bool) (cfgCap : Nat) (inp : ByteArray) : R2 := newReader2AtE srcErr cfgCap inp 0
 
 /-- position of the underlying source: inside an LZMA chunk the byte reader has consumed what the range decoder took -/
 def R2.srcPos (r : R2) : Nat := if r.cur = .lz then r.segEnd - r.l.rd.inp.length else r.pos
